@@ -198,7 +198,8 @@ def run(ctx):
             res.hit("compared_with_model")
         # histories on one object vs fresh objects
         ss = fresh()
-        seq = [rng.choice([1, 2, 3, n, n + 1, "best", None]) for _ in range(rng.randint(2, 6 if not ctx.thorough else 12))]
+        seq = [rng.choice([1, 2, 3, n, n + 1, "best", None, ("fast", 1), ("fast", 2), ("fast", n), ("align_fast", 2)])
+               for _ in range(rng.randint(2, 6 if not ctx.thorough else 12))]
         for op in seq:
             try:
                 if op == "best":
@@ -206,6 +207,17 @@ def run(ctx):
                     got = [(float(m.distance), int(m.idx))]
                     m2 = fresh().best_match()
                     ref = [(float(m2.distance), int(m2.idx))]
+                elif isinstance(op, tuple) and op[0] == "fast":
+                    # the `_fast` alias of the same question (answers are engine-independent)
+                    ms_ = ss.kbest_matches_fast(k=op[1])
+                    got = [(float(m_.distance), int(m_.idx)) for m_ in ms_]
+                    if len(ms_) != len(got) or [(float(m_.distance), int(m_.idx)) for m_ in ms_[:]] != got:
+                        access_bad.append({"k": op, "iterated": got, "len": len(ms_)})
+                    ref = answer(fresh(), op[1])
+                    res.hit("history_with_fast_alias")
+                elif isinstance(op, tuple) and op[0] == "align_fast":
+                    got = [(float(d_), int(i_)) for d_, i_ in ss.align_fast(k=op[1])]
+                    ref = [(float(d_), int(i_)) for d_, i_ in fresh().align(k=op[1])]
                 else:
                     got = answer(ss, op)
                     ref = answer(fresh(), op)
